@@ -252,7 +252,7 @@ func driveC19(t *testing.T, out *vEmitter) {
 			rq, _ := vRawRequest(vBuildRaw("GET", "/oauth2/auth", hosts[0], [][2]string{{"Authorization", "Bearer " + bearer2}}, ""))
 			rq.RemoteAddr = remotes[0]
 			if rs := e.serve(rq); rs.Panic == nil && rs.Status != 202 {
-				t.Fatalf("extra-jwt-issuer bearer token not accepted: status %d", rs.Status)
+				out.Violation("control/extra-issuer-bearer-not-accepted", "the second issuer's bearer token is not a session source in this configuration", map[string]interface{}{"status": rs.Status})
 			} else if rs.Panic == nil {
 				out.Stat("extra_issuer_bearer_accepted", 1)
 			}
@@ -422,6 +422,6 @@ func vC19LoggingFormats(t *testing.T, out *vEmitter) {
 	out.Stat("logging_formats_refused", refused)
 	out.Stat("logging_formats_accepted", accepted)
 	if accepted == 0 {
-		t.Fatalf("no logging format was accepted: the sweep checks nothing")
+		out.Violation("control/no-logging-format-accepted", "no logging format was accepted: the sweep checks nothing", map[string]interface{}{})
 	}
 }
